@@ -315,4 +315,13 @@ def assigned_vars(fn, e):
     if e.kind == "decl":
         for v in e.node["vars"]:
             out.add(v["n"])
+    if e.kind == "access" and e.mode in ("w", "rw") and e.node["k"] == "un" and e.node["op"] == "deref":
+        # `*out = x` where out is the parameter of an expanded helper bound to `&v` (sa/flatten.py): an assignment of v
+        from . import rules as _RU
+        t = _RU.strip_addr(fn, e.node["a"][0])
+        b = fn.d(e.node["a"][0])
+        while b is not None and b["k"] == "cast":
+            b = fn.d(b["a"][0])
+        if t is not None and t["k"] == "var" and b is not None and b["k"] == "var" and t["n"] != b["n"]:
+            out.add(t["n"])
     return out
